@@ -1,11 +1,15 @@
 package main
 
 import (
+	"context"
 	"errors"
+	"flag"
 	"fmt"
+	"os"
 	"os/exec"
 	"strconv"
 	"syscall"
+	"time"
 
 	ucfg "github.com/elastic/go-ucfg"
 
@@ -129,11 +133,63 @@ func vstubCommand(name string, arg ...string) *exec.Cmd {
 func vstubCmdRun(c *exec.Cmd) error {
 	vExecCalls++
 	vExecAt = vTick()
-	if vChoice("exec.fails", 2) == 1 {
-		return errors.New("exit status 1")
+	switch vChoice("exec.fails", 3) {
+	case 1:
+		return errors.New("fork/exec: no such file or directory")
+	case 2:
+		// the target ran and ended unsuccessfully: exit status 1..127, or -1 (killed by a signal)
+		code := int(int8(vU8("exec.exit")))
+		vAssume(vOr(code == -1, code >= 1))
+		return &exec.ExitError{ProcessState: vProcState(code)}
 	}
 	return nil
 }
+
+func vstubCommandContext(ctx context.Context, name string, arg ...string) *exec.Cmd {
+	return vstubCommand(name, arg...)
+}
+
+// a context nobody cancels (signals are outside the model)
+type vCtx struct{}
+
+func (vCtx) Deadline() (time.Time, bool)       { return time.Time{}, false }
+func (vCtx) Done() <-chan struct{}             { return nil }
+func (vCtx) Err() error                        { return nil }
+func (vCtx) Value(key interface{}) interface{} { return nil }
+
+func vstubBackground() context.Context { return vCtx{} }
+func vstubNotifyContext(parent context.Context, sig ...os.Signal) (context.Context, context.CancelFunc) {
+	return vCtx{}, func() {}
+}
+
+// flag.FlagSet: the same model as the global flag functions
+func vstubNewFlagSet(name string, h flag.ErrorHandling) *flag.FlagSet { return &flag.FlagSet{} }
+func vstubFSStringVar(fs *flag.FlagSet, p *string, name, value, usage string) {
+	vstubStringVar(p, name, value, usage)
+}
+func vstubFSBoolVar(fs *flag.FlagSet, p *bool, name string, value bool, usage string) {
+	vstubBoolVar(p, name, value, usage)
+}
+func vstubFSParse(fs *flag.FlagSet, args []string) error { return nil }
+func vstubFSArgs(fs *flag.FlagSet) []string              { return vArgs }
+func vstubFSNArg(fs *flag.FlagSet) int                   { return len(vArgs) }
+func vstubFSArg(fs *flag.FlagSet, i int) string {
+	if i < 0 || i >= len(vArgs) {
+		return ""
+	}
+	return vArgs[i]
+}
+func vstubNArg() int { return len(vArgs) }
+func vstubFlagArg(i int) string {
+	if i < 0 || i >= len(vArgs) {
+		return ""
+	}
+	return vArgs[i]
+}
+
+func vstubFatal(v ...interface{})                 { vExitCode = 1; vExitNow() }
+func vstubFatalf(format string, v ...interface{}) { vExitCode = 1; vExitNow() }
+func vstubFatalln(v ...interface{})               { vExitCode = 1; vExitNow() }
 
 func vstubExit(code int) {
 	vExitCode = code
